@@ -350,15 +350,30 @@ const (
 	kRunPrivate
 	kParseGroups
 	nKinds
+	// not drawn at random: placed into every fifth batch (see novelSources)
+	kRunNovel = nKinds
 )
 
-var kindNames = []string{"compile-groups", "compile-plain", "run-shared", "run-private", "parse-groups"}
+var kindNames = []string{"compile-groups", "compile-plain", "run-shared", "run-private", "parse-groups", "run-novel"}
 
 type task struct {
 	kind int
 	prog *program
 	text int
 	priv *libvore.Vore
+	// run-novel: an input this process has never seen; the reference result is computed alone AFTER the batch
+	novelText string
+	novelGot  []string
+}
+
+// The sequential reference runs every pooled program on every pooled text before the first concurrent batch, so
+// anything the process builds up lazily while running (tables, caches, pools that grow with the input) is warm by
+// then.  The novel runs are the complement: long-loop programs on texts longer than anything the process has run so
+// far, several goroutines at once, each batch longer than the last.
+var novelSources = []string{
+	"replace all at least 1 letter with 'x'",
+	"find all @/[a-z]+/",
+	"find all between 2 and 100000 letter",
 }
 
 func main() {
@@ -478,6 +493,8 @@ func main() {
 	}
 
 	distinct := map[string]bool{}
+	novelCount, novelSrc := 0, ""
+	var novelV *libvore.Vore
 	var mu sync.Mutex
 	stop := false
 	for _, np := range rep.Procs {
@@ -503,6 +520,20 @@ func main() {
 			mix := []string{}
 			for g := range tasks {
 				k := r.Intn(nKinds)
+				if b%5 == 4 && g >= len(tasks)-3 {
+					// one program and one text for the three novel runs of this batch (one reference run afterwards)
+					if g == len(tasks)-3 {
+						novelCount++
+						novelSrc = novelSources[r.Intn(len(novelSources))]
+						novelV, _ = compileDump(novelSrc)
+					}
+					if novelV != nil {
+						tasks[g] = task{kind: kRunNovel, prog: &program{Src: novelSrc}, priv: novelV,
+							novelText: strings.Repeat("a", 257+2*novelCount) + " b"}
+						mix = append(mix, kindNames[kRunNovel])
+						continue
+					}
+				}
 				if *mode == "compile-groups" || (b%4 == 3 && g < 2) {
 					// every fourth batch has at least two concurrent compiles with groups
 					k = kCompileGroups
@@ -556,6 +587,11 @@ func main() {
 							got, want, text = runDump(t.priv, texts[t.text]), t.prog.Runs[t.text], texts[t.text]
 						case kRunPrivate:
 							got, want, text = runDump(t.priv, texts[t.text]), t.prog.Runs[t.text], texts[t.text]
+						case kRunNovel:
+							if it == 0 {
+								tasks[g].novelGot = append(tasks[g].novelGot, runDump(t.priv, t.novelText))
+							}
+							continue
 						}
 						if got != want {
 							mu.Lock()
@@ -576,9 +612,36 @@ func main() {
 				stop = true
 			}
 			rep.Batches++
+			// reference of the novel runs: the same call, alone, after the batch
+			runtime.GOMAXPROCS(1)
+			novelWant := map[string]string{}
+			for g, t := range tasks {
+				if t.kind != kRunNovel || stop {
+					continue
+				}
+				want, have := novelWant[t.prog.Src+"\x00"+t.novelText]
+				if !have {
+					if v, _ := compileDump(t.prog.Src); v != nil {
+						want = runDump(v, t.novelText)
+					}
+					novelWant[t.prog.Src+"\x00"+t.novelText] = want
+				}
+				for it, got := range t.novelGot {
+					if got != want {
+						rep.DiffCount++
+						if len(rep.Diffs) < *maxDiffs {
+							rep.Diffs = append(rep.Diffs, Diff{np, b, g, it, kindNames[t.kind], t.prog.Src, t.novelText, want, got, mixs})
+						}
+					}
+				}
+			}
 			for _, t := range tasks {
 				rep.Ops += *iters
 				rep.OpsByKind[kindNames[t.kind]] += *iters
+				if t.kind == kRunNovel {
+					distinct[kindNames[t.kind]+"\x00"+t.prog.Src+"\x00"+t.novelText] = true
+					continue
+				}
 				key := kindNames[t.kind] + "\x00" + t.prog.Src
 				if t.kind == kRunShared || t.kind == kRunPrivate {
 					key += "\x00" + texts[t.text]
